@@ -288,7 +288,7 @@ func registered(name string) bool {
 var c20counter int
 
 func runL2C(seed int64, n int, dir string) error {
-	g := &gen{rand.New(rand.NewSource(seed))}
+	g := &gen{r: rand.New(rand.NewSource(seed))}
 	cf, err := os.Create(dir + "/cases.txt")
 	if err != nil {
 		return err
